@@ -191,7 +191,14 @@ theorem chmod_eq {fs fs' : FS} {cwd : Path} {s : Str} {mode : Nat} {p : Path}
 theorem utimes_eq {fs fs' : FS} {cwd : Path} {s : Str} {a m : Time} {p : Path}
     (h : utimes fs cwd s a m = some (fs', p)) : p = lexNorm cwd s := by
   unfold utimes at h
-  split at h; · simp at h
+  split at h
+  · split at h
+    · unfold utimesAt at h
+      split at h; · simp at h
+      rename_i q n hq
+      simp at h
+      exact h.2 ▸ (stat_eq hq).1
+    · simp at h
   split at h; · simp at h
   rename_i q n hq
   simp at h
